@@ -585,3 +585,21 @@ Example synced_to_emit_old_refuted_large_threshold :
   synced_to_emit_old s 4611686018427387904 = (0, NoErr) /\
   synced_to_emit s 4611686018427387904 = (max64, ErrSelfEventsOngoing).
 Proof. split; vm_compute; reflexivity. Qed.
+
+(* ------------------------------------------------------------------ the residue for thresholds < 0
+   (repaired code; see design-notes/C21.md).  With a negative threshold and a stamp more than 2^63 ns
+   ahead of Now, Time.Sub has saturated and the wait is  th + 2^63 : positive, but below the capped
+   longest remaining time (here MaxInt64).  wait_bounds is tight. *)
+Definition far_ahead : status :=
+  {| peers := 1; now := old_now; startup := long_ago; connected := long_ago; synced := long_ago;
+     became := long_ago;
+     created := {| sec := 62135596800 + 1790000000 + 9223372038; nsec := 854775808 |};  (* now + 2^63 ns + 2 s *)
+     detected := long_ago |}.
+Example negative_threshold_wait_is_a_lower_bound :
+  synced_to_emit far_ahead (-1000000000) = (9223372035854775808, ErrSelfEventsOngoing) /\
+  capped (longest far_ahead (-1000000000)) = max64.
+Proof. split; vm_compute; reflexivity. Qed.
+(* threshold = MinInt64: no Since(t) can be smaller, the guard never fires *)
+Example min_threshold_guard_is_vacuous :
+  synced_to_emit far_ahead min64 = (0, NoErr) /\ elapsed far_ahead (created far_ahead) < min64.
+Proof. split; vm_compute; reflexivity. Qed.
